@@ -134,6 +134,14 @@ fn generate_g(seed: u64, _quick: bool) -> Value {
             if rng.chance(1, 2) {
                 prefix.push(json!({"t": "(import (shared ctr))", "k": "lib-import"}));
             }
+            if rng.chance(1, 2) {
+                // a natively provided library of one name, different per instance
+                prefix.push(json!({"t": "(import (iso nat))", "k": "lib-import"}));
+            }
+            if rng.chance(1, 3) {
+                // a second declaration over a library already imported: the same instance of it
+                prefix.push(json!({"t": "(import (prefix (iso reg) again:))", "k": "lib-import"}));
+            }
         }
         for f in sub["forms"].as_array().cloned().unwrap_or_default() {
             let k = f["k"].as_str().unwrap_or("");
@@ -186,6 +194,11 @@ fn generate_g(seed: u64, _quick: bool) -> Value {
                     "(iso-bump 1)",
                     "(shared-next!)",
                     "(shared-next!)",
+                    "iso-nat-id",
+                    "(vector-ref iso-nat-box 0)",
+                    "(vector-set! iso-nat-box 0 (+ 1 (vector-ref iso-nat-box 0)))",
+                    "(again:iso-reg-next!)",
+                    "(again:iso-reg-next!)",
                 ]);
                 forms.insert(at, json!({"t": t, "k": "lib-use"}));
             }
@@ -368,6 +381,28 @@ fn make_instance(prog: &Value, dir: &PathBuf) -> Result<Inst, crate::hashseed::P
     ));
     if !prog["no_program_directory"].as_bool().unwrap_or(false) {
         sys.it.program_directory = Some(dir.clone());
+    }
+    // a natively provided library: every instance is given one of the same name and its own values
+    {
+        let marker = match prog["who"].as_str() {
+            Some("A") => 1000,
+            Some("B") => 2000,
+            _ => 3000,
+        };
+        sys.it.register_library_factory(LibraryFactory::Native(
+            library_name_of(&["iso", "nat"]),
+            Box::new(move || {
+                vec![
+                    ("iso-nat-id".to_string(), ruschm::values::Value::Number(ruschm::values::Number::Integer(marker))),
+                    (
+                        "iso-nat-box".to_string(),
+                        ruschm::values::Value::Vector(ruschm::values::ValueReference::new_mutable(vec![ruschm::values::Value::Number(
+                            ruschm::values::Number::Integer(marker + 1),
+                        )])),
+                    ),
+                ]
+            }),
+        ));
     }
     // a library registered with this instance alone, under a name of its own
     if let Some(w) = prog["who"].as_str() {
